@@ -18,7 +18,7 @@ Definition ran (e : entry) (c : cfg) : list erule := executed (o_segs (run_prog 
 Fixpoint upto_fail (l : list erule) : list erule :=
   match l with [] => [] | r :: l' => if efail r then [r] else r :: upto_fail l' end.
 
-Definition dummy_rule : erule := mkER "" 0 false false false.
+Definition dummy_rule : erule := mkER "" 0 false false false None.
 
 (* ------------------------------------------------------------------ *)
 (* the call is the documented outcome *)
@@ -402,10 +402,12 @@ Proof. induction l as [|x l IH]; intros acc N; [exact N|]. cbn [fold_left]. appl
 
 Lemma result_exact e c : exists m,
   o_map (run_prog (hand e) c) = Some m /\
-  (forall n, In n m <-> exists r, In r (ran e c) /\ eret r = true /\ en r = n) /\
-  NoDup m.
+  (forall n, In n (map fst m) <-> exists r, In r (ran e c) /\ eret r = true /\ en r = n) /\
+  NoDup (map fst m).
 Proof.
-  eexists. split; [apply hand_map|]. fold (ran e c). unfold result_keys. split.
+  eexists. split; [apply hand_map|]. fold (ran e c).
+  change (map fst (result_entries (ran e c))) with (result_keys (ran e c)).
+  rewrite result_keys_fold. split.
   - intro n. rewrite fold_add_key_in. cbn [In]. tauto.
   - apply fold_add_key_nodup. constructor.
 Qed.
@@ -565,6 +567,148 @@ Proof.
   - intro H. apply inverse_stage_sub in H. apply sortsel_sub, H.
 Qed.
 
+(* ---------- C11: the VALUES of the result map ---------- *)
+Lemma dag_stage_sub c layers r : In r (executed (fst (dag_stage c layers))) -> In r (c_rules c).
+Proof.
+  induction layers as [|ly rest IH]; [intros []|]. cbn [dag_stage].
+  destruct (any_fail (sel c ly)).
+  - cbn [fst]. rewrite executed_par. apply sel_in_rules.
+  - destruct (dag_stage c rest) as [s e]. cbn [fst] in *.
+    rewrite executed_app, executed_par, in_app_iff. intros [H|H]; [eapply sel_in_rules, H | apply IH, H].
+Qed.
+
+(* every rule a call executes is one of the configured rules *)
+Lemma ran_in_rules e c r : In r (ran e c) -> In r (c_rules c).
+Proof.
+  assert (Sel : In r (sel c (c_names c)) -> In r (c_rules c)) by apply sel_in_rules.
+  destruct e;
+    try (intro H; apply Sel; revert H; apply selected_only; cbn [In]; tauto);
+    rewrite ran_spec; cbn [spec].
+  - destruct (is_nil (c_rules c)); [intros []|]. apply sorted_stage_sub.
+  - destruct (is_nil (c_rules c)); [intros []|]. apply sorted_stage_sub.
+  - destruct (is_nil (c_rules c)); [intros []|]. unfold executed. cbn [fst flat_map seg_rules].
+    now rewrite app_nil_r.
+  - apply mix_stage_sub.
+  - apply mix_stage_sub.
+  - apply inverse_stage_sub.
+  - destruct (nm_valid c); [|intros []]. intro H. eapply firstn_sub, nm_stage_sub, H.
+  - destruct (nm_valid c); [|intros []]. intro H. eapply firstn_sub, nm_stage_sub, H.
+  - destruct (nm_valid c); [|intros []]. intro H. eapply firstn_sub, nm_stage_sub, H.
+  - apply dag_stage_sub.
+Qed.
+
+Lemma nodup_names_inj (l : list erule) : NoDup (map en l) ->
+  forall r1 r2, In r1 l -> In r2 l -> en r1 = en r2 -> r1 = r2.
+Proof.
+  induction l as [|x l IH]; intros N r1 r2 H1 H2 E; [destruct H1|].
+  cbn [map] in N. inversion N as [|? ? Hx N']; subst.
+  destruct H1 as [<-|H1], H2 as [<-|H2]; auto.
+  - exfalso. apply Hx. rewrite E. now apply in_map.
+  - exfalso. apply Hx. rewrite <- E. now apply in_map.
+Qed.
+
+(* Go's m[k] = w on a map with unique keys *)
+Lemma set_entry_in m k w : NoDup (map fst m) -> forall n v,
+  In (n, v) (set_entry m k w) <-> (n = k /\ v = w) \/ (n <> k /\ In (n, v) m).
+Proof.
+  induction m as [|[k' w'] m IH]; intros N n v; cbn [set_entry].
+  - cbn [In]. split.
+    + intros [[= <- <-]|[]]. left; auto.
+    + intros [[-> ->]|[_ []]]. now left.
+  - cbn [map fst] in N. inversion N as [|? ? Hnin N']; subst.
+    destruct (String.eqb k' k) eqn:E.
+    + apply String.eqb_eq in E. subst k'. cbn [In]. split.
+      * intros [[= <- <-]|H]; [left; auto|]. right. split; [|right; exact H].
+        intros ->. apply Hnin. apply (in_map fst) in H. exact H.
+      * intros [[-> ->]|[Hne [[= -> ->]|H]]]; [now left|congruence|now right].
+    + apply String.eqb_neq in E. cbn [In]. rewrite (IH N'). split.
+      * intros [[= <- <-]|[[-> ->]|[Hne H]]].
+        -- right. split; [exact E|now left].
+        -- left; auto.
+        -- right; split; [exact Hne | now right].
+      * intros [[-> ->]|[Hne [[= -> ->]|H]]].
+        -- right. left. auto.
+        -- now left.
+        -- right. right. auto.
+Qed.
+
+(* the weakest hypothesis under which "the map binds every rule that ran and returned to ITS
+   value" can hold: two executed rules that both return and share a name return the same value
+   (otherwise the later store wins and the earlier rule's value is gone) *)
+Definition same_name_same_value (l : list erule) : Prop :=
+  forall r1 r2, In r1 l -> In r2 l -> eret r1 = true -> eret r2 = true -> en r1 = en r2 -> eval r1 = eval r2.
+
+Lemma result_entries_snoc l x : result_entries (l ++ [x]) = add_entry (result_entries l) x.
+Proof. unfold result_entries. now rewrite fold_left_app. Qed.
+
+Lemma result_entries_nodup l : NoDup (map fst (result_entries l)).
+Proof.
+  change (NoDup (result_keys l)). rewrite result_keys_fold. apply fold_add_key_nodup. constructor.
+Qed.
+
+(* every binding comes from a rule that ran, returned, and returned that value — unconditionally *)
+Lemma result_entries_from l : forall n v, In (n, v) (result_entries l) ->
+  exists r, In r l /\ eret r = true /\ en r = n /\ eval r = v.
+Proof.
+  induction l as [|x l IH] using rev_ind; intros n v; [intros []|].
+  rewrite result_entries_snoc. unfold add_entry. intro H.
+  assert (Old : In (n, v) (result_entries l) -> exists r, In r (l ++ [x]) /\ eret r = true /\ en r = n /\ eval r = v).
+  { intro H'. destruct (IH n v H') as (r & Hr & P). exists r. split; [apply in_or_app; now left | exact P]. }
+  destruct (eret x) eqn:Ex; [|auto].
+  apply (set_entry_in _ _ _ (result_entries_nodup l)) in H. destruct H as [[-> ->]|[_ H]]; [|auto].
+  exists x. split; [apply in_or_app; right; now left | auto].
+Qed.
+
+Lemma result_entries_values l : same_name_same_value l ->
+  forall n v, In (n, v) (result_entries l) <-> exists r, In r l /\ eret r = true /\ en r = n /\ eval r = v.
+Proof.
+  intros C n v. split; [apply result_entries_from|]. revert C n v.
+  induction l as [|x l IH] using rev_ind; intros C n v (r & Hr & Er & Hn & Ev); [destruct Hr|].
+  assert (C' : same_name_same_value l).
+  { intros a b Ha Hb. apply C; apply in_or_app; now left. }
+  assert (Hx : In x (l ++ [x])) by (apply in_or_app; right; now left).
+  rewrite result_entries_snoc. unfold add_entry. apply in_app_or in Hr.
+  destruct (eret x) eqn:Ex.
+  - apply (set_entry_in _ _ _ (result_entries_nodup l)).
+    destruct (string_dec n (en x)) as [E|E].
+    + left. split; [exact E|]. rewrite <- Ev.
+      apply (C r x); [apply in_or_app; exact Hr | exact Hx | exact Er | exact Ex | congruence].
+    + right. split; [exact E|]. destruct Hr as [Hr|[<-|[]]]; [|congruence].
+      apply (IH C'). exists r. auto.
+  - destruct Hr as [Hr|[<-|[]]]; [|congruence]. apply (IH C'). exists r. auto.
+Qed.
+
+Lemma result_values_gen e c : same_name_same_value (ran e c) -> exists m,
+  o_map (run_prog (hand e) c) = Some m /\
+  forall n v, In (n, v) m <-> exists r, In r (ran e c) /\ eret r = true /\ en r = n /\ eval r = v.
+Proof.
+  intro C. eexists. split; [apply hand_map|]. fold (ran e c). now apply result_entries_values.
+Qed.
+
+Lemma result_values_from e c m n v :
+  o_map (run_prog (hand e) c) = Some m -> In (n, v) m ->
+  exists r, In r (ran e c) /\ eret r = true /\ en r = n /\ eval r = v.
+Proof. rewrite hand_map. intros [= <-]. apply result_entries_from. Qed.
+
+Lemma nodup_same_name_same_value e c : NoDup (map en (c_rules c)) -> same_name_same_value (ran e c).
+Proof.
+  intros N r1 r2 H1 H2 _ _ E. f_equal.
+  apply (nodup_names_inj _ N); [eapply ran_in_rules, H1 | eapply ran_in_rules, H2 | exact E].
+Qed.
+
+Lemma result_values e c : NoDup (map en (c_rules c)) -> exists m,
+  o_map (run_prog (hand e) c) = Some m /\
+  forall n v, In (n, v) m <-> exists r, In r (ran e c) /\ eret r = true /\ en r = n /\ eval r = v.
+Proof. intro N. apply result_values_gen, nodup_same_name_same_value, N. Qed.
+
+Lemma bare_return_binds_nil e c m r : NoDup (map en (c_rules c)) ->
+  o_map (run_prog (hand e) c) = Some m ->
+  In r (ran e c) -> eret r = true -> eval r = None -> In (en r, None) m.
+Proof.
+  intros N Hm Hr Er Ev. destruct (result_values e c N) as (m' & Hm' & H).
+  rewrite Hm in Hm'. injection Hm' as <-. apply H. exists r. auto.
+Qed.
+
 Lemma as_given_ran c :
   ran EExecuteSelectedRulesWithControlAsGivenSortedName c =
   if c_b c then sel c (c_names c) else upto_fail (sel c (c_names c)).
@@ -665,7 +809,7 @@ Qed.
 Lemma inverse_stage_meaning c l t :
   (3 <= length l)%nat -> traces (fst (inverse_stage c l)) t ->
   let init := removelast l in
-  let lst := last l (mkER "" 0 false false false) in
+  let lst := last l (mkER "" 0 false false false None) in
   exists t1 t2, t = t1 ++ t2 /\ Interleave (map rule_evs init) t1 /\
     (any_fail init = true -> t2 = [] /\ snd (inverse_stage c l) = true) /\
     (any_fail init = false -> t2 = rule_evs lst /\ snd (inverse_stage c l) = efail lst).
@@ -692,7 +836,7 @@ Qed.
 Lemma inverse_meaning c t :
   (3 <= length (c_rules c))%nat -> tr EExecuteInverseMixModel c t ->
   let init := removelast (c_rules c) in
-  let lst := last (c_rules c) (mkER "" 0 false false false) in
+  let lst := last (c_rules c) (mkER "" 0 false false false None) in
   exists t1 t2, t = t1 ++ t2 /\ Interleave (map rule_evs init) t1 /\
     (any_fail init = true -> t2 = [] /\ call_err EExecuteInverseMixModel c = true) /\
     (any_fail init = false -> t2 = rule_evs lst /\ call_err EExecuteInverseMixModel c = efail lst).
@@ -708,7 +852,7 @@ Lemma inverse_selected_meaning c t :
   let l := sort_desc (sel c (c_names c)) in
   (3 <= length l)%nat -> tr EExecuteSelectedRulesInverseMixModel c t ->
   let init := removelast l in
-  let lst := last l (mkER "" 0 false false false) in
+  let lst := last l (mkER "" 0 false false false None) in
   exists t1 t2, t = t1 ++ t2 /\ Interleave (map rule_evs init) t1 /\
     (any_fail init = true -> t2 = [] /\ call_err EExecuteSelectedRulesInverseMixModel c = true) /\
     (any_fail init = false ->
